@@ -12,17 +12,26 @@ PROPERTIES = {
             "a point`, default = exhaustive test on the occupied spaces), of MeshVolumeRegion.intersects (volume/volume arm, passes 1-5) and of "
             "MeshVolumeRegion.containsObject (passes 1-5) agrees with overlap(self, other) / inside(obj, self); Object.minimumDistanceTo takes the planar fast path only "
             "when the planar distance of the bounding polygons is the gap of the two prisms (K9) and otherwise returns the exact distance of the occupied spaces; "
-            "Object._isPlanarBox is true exactly for boxes whose GLOBAL pitch and roll are 0; the bounded footprint handed to the mesh/footprint arms covers the requested slab for every request history"
+            "Object._isPlanarBox is true exactly for boxes whose GLOBAL pitch and roll are 0; the bounded footprint handed to the mesh/footprint arms covers the requested slab for every request history; "
+            "Object._boundingPolygon of a planar box is the quadrilateral position + R(yaw) (+-w/2, +-l/2) (the polygon of K-prism), otherwise the projection of the occupied space; "
+            "PolygonalFootprintRegion.containsObject (convex fast path, convex-hull quick accept, exact polygon) is true exactly when every point of the object's projection lies in the polygon; "
+            "MeshVolumeRegion._circumradius bounds the distance of every mesh vertex from the position in all three arms (precomputed scaled shape; shape x largest dimension; vertex scan), the premise of K1"
         ),
         note="the kernels themselves (FCL, trimesh booleans/proximity, shapely) are trusted; configurations within tolerance of touching are outside the statement",
-        assumptions=["kernel axioms K-prism, K1-K8 (see trusted_base)"],
+        assumptions=[
+            "kernel axioms K-prism, K1-K8 (see trusted_base)",
+            "K-hull: the projected convex hull of an object contains its exact bounding polygon",
+            "A-rotation-norm: a rotation preserves the Euclidean norm; T-transform: MeshRegion.mesh = position + R (scale * input vertex), Shape meshes have unit extents, _scaledShape is the shape's mesh scaled to the object's dimensions at the origin",
+            "G-affine: shapely.affinity.affine_transform maps a polygon to the polygon over the images of its vertices",
+        ],
         not_reached=[
             "FCL / trimesh / shapely kernels (trusted)",
             "MeshVolumeRegion.intersects: MeshSurfaceRegion and PolygonalFootprintRegion arms; MeshSurfaceRegion.intersects",
-            "Object._boundingPolygon (affine matrix), MeshVolumeRegion.minimumDistanceTo (FCL, trusted as exact), MeshVolumeRegion._interiorPoint/_interiorPointRadii/_bodyCount (the helper values are axiomatised); "
-            "MeshVolumeRegion._circumradius is under contract for the arm without a precomputed shape and Shape._circumradius for the per-shape radius, but the scaling/rigid-transform step between them is not",
-            "PolygonalFootprintRegion.containsObject, GridRegion.containsObject",
+            "MeshVolumeRegion.minimumDistanceTo (FCL, trusted as exact), MeshVolumeRegion._interiorPoint/_interiorPointRadii/_bodyCount (the helper values are axiomatised)",
+            "MeshRegion.mesh / _transform / _shapeTransform (trimesh compose_matrix): how the final mesh is obtained from the precomputed one is the trusted statement T-transform used by the _circumradius contract; "
+            "MeshRegion._boundingPolygonHull / _boundingPolygon (shapely convex hull, trimesh projection): kernels, related by K-hull",
+            "GridRegion.containsObject",
         ],
-        bounded=["MeshVolumeRegion.containsObject: meshes of 2 vertices (symbolic coordinates)", "MeshVolumeRegion._circumradius: 2 vertices; Shape._circumradius: 2 vertices (symbolic coordinates)"],
+        bounded=["MeshVolumeRegion.containsObject: meshes of 2 vertices (symbolic coordinates)", "MeshVolumeRegion._circumradius (all three arms): 2 vertices; Shape._circumradius: 2 vertices (symbolic coordinates)"],
     )
 }
